@@ -356,6 +356,14 @@ def build_world(case):
                             sh.vertices = np.array(sh.vertices[:-1], dtype=float)
     lids = [la.lanelet_id for la in sc.lanelet_network.lanelets]
     pps = scen.rand_planning_problem_set(rng, n=w["npp"], lanelet_ids=lids or None)
+    # a third of the predicted vehicles are predicted with a footprint of their own (a safety margin around the
+    # obstacle's shape); assigned through the public setter as the last thing, so nothing has been computed yet
+    r3 = random.Random(case["seed"] ^ 0x3131)
+    from commonroad.prediction.prediction import TrajectoryPrediction as _TP
+    for o in sc.obstacles:
+        p = getattr(o, "prediction", None)
+        if isinstance(p, _TP) and isinstance(p.shape, Rectangle) and r3.random() < 0.35:
+            p.shape = Rectangle(p.shape.length + 1.5, p.shape.width + 0.75, p.shape.center.copy(), p.shape.orientation)
     return sc, pps
 
 
